@@ -29,6 +29,14 @@ type Case struct {
 	NonTrivial bool   // reaches the code the property is about
 	SkipModel  bool   // implementation-only case (GT oracle only)
 	Extra      map[string]any
+	Project    func(Sexp) Sexp // optional canonicalisation of the model's output before the comparison
+}
+
+func (cs *Case) project(m Sexp) Sexp {
+	if cs.Project != nil {
+		return cs.Project(m)
+	}
+	return m
 }
 
 type Ctx struct {
@@ -144,10 +152,12 @@ func (c *Ctx) runModel(cases []*Case) (map[int]Sexp, error) {
 	}
 	var in bytes.Buffer
 	var order []int
+	byID := map[int]*Case{}
 	for _, cs := range cases {
 		if cs.SkipModel {
 			continue
 		}
+		byID[cs.ID] = cs
 		in.WriteString(cs.Entry)
 		in.WriteByte(' ')
 		in.WriteString(cs.Input.String())
@@ -173,6 +183,9 @@ func (c *Ctx) runModel(cases []*Case) (map[int]Sexp, error) {
 		s, err := ParseSexp(sc.Text())
 		if err != nil {
 			return nil, fmt.Errorf("modelrun output line %d: %v", i, err)
+		}
+		if cs := byID[order[i]]; cs != nil {
+			s = cs.project(s)
 		}
 		res[order[i]] = s
 		i++
@@ -254,7 +267,7 @@ func (c *Ctx) Finish() int {
 	for _, cs := range c.cases {
 		evals++
 		classHist[cs.Class]++
-		h := sha256.Sum256([]byte(cs.Entry + " " + cs.Input.String() + "|" + cs.Desc))
+		h := sha256.Sum256([]byte(cs.Class + "|" + cs.Entry + " " + cs.Input.String() + "|" + cs.Desc))
 		if cs.NonTrivial && !distinct[h] {
 			distinct[h] = true
 			nontrivial++
